@@ -224,3 +224,30 @@ P['C08'] = dict(
          thorough=dict(defines={'MAXSTEPS': 2}, cfg=dict(time_budget=600))),
     dict(name='H08D', src='C10_busy.cpp', covers=['placement call ended', 'end'], defines={'VCAP': 8}, cfg=dict(fp='havoc', scan_globals=True), ir_srcs=ALL_IR, native_srcs=ALL_IR, native_flags=['-llemon']),
   ])
+
+P['C06'] = dict(
+  design_ref='DESIGN.md section 3 C06',
+  level_text='The conjugate-gradient solve is Eigen (environment contract: finite values). Decided on the real code: (E) Circuit::placeGlobal end to end on a tiny circuit with every float value unconstrained: it completes without raising an error on every explored outcome of the float comparisons, issues lower-bound and upper-bound callbacks, and no assert/contract/UB of the integer skeleton fires; (C) blendPlacement + GlobalPlacer::exportPlacement with symbolic coordinates up to 8e6: exact at blending 0 and 1, equal to (1-w)LB + w UB up to float rounding otherwise, exported integer coordinate = centre minus half size, rounded, and the float-to-int conversion cannot overflow (linear float error model).',
+  text=dict(bounds=dict(quick='E: 2 movable + 1 fixed cell, 4 rows, 1 step; C: 1 cell, blending in {0, 1, 0.99, 0.5}, |coordinates| <= 8e6, sizes <= 4096', thorough='E: 2 steps'),
+            outside='"every upper-bound coordinate inside the placement area" and "no NaN": need the float values of spreadCells / the CG solve (declined: float kernel not closed by the error model, Eigen internals); more cells and steps'),
+  assumptions=STD_ASSUME + [EIGEN_ASSUME, BOOST_ASSUME],
+  harnesses=[
+    dict(name='H06C', src='C06_blend.cpp', covers=['end'], defines={'VCAP': 6}, cfg=dict(fp='real', query_timeout_ms=60000), diff_samples=0, ir_srcs=ALL_IR, native_srcs=ALL_IR, native_flags=['-llemon']),
+    dict(name='H06E', src='C03_global.cpp', covers=['placeGlobal ended', 'end'], defines={'VCAP': 24, 'MAXSTEPS': 1}, cfg=dict(fp='havoc', time_budget=40), split=4, ir_srcs=ALL_IR, native_srcs=ALL_IR, native_flags=['-llemon'],
+         thorough=dict(defines={'MAXSTEPS': 2}, cfg=dict(time_budget=600))),
+  ])
+
+P['C07'] = dict(
+  design_ref='DESIGN.md section 3 C07',
+  level_text='Every harness of every property runs with clang UBSan traps (signed overflow, division by zero, shifts, array bounds, float-to-int range, invalid bool/enum, missing return, unreachable), container contracts (index, empty access, iterator range) and the repository assert()s as verification conditions. This check aggregates dedicated runs: magnitude kernels at the full supported range (bin subdivision of areas up to 2^23 wide into up to 1200 bins, wirelength/area accumulation at |v|<=2^22, single-row legalizer cost arithmetic with widths and displacements up to 2^20) and the end-to-end entry points (legalize, placeDetailed, placeGlobal) in assert-enabled AND -DNDEBUG builds. Every explored path also terminated within the step budget.',
+  text=dict(bounds=dict(quick='kernels: symbolic full-range operands; end to end: the tiny circuits of C01/C10/C03 in both assert modes', thorough='same with the thorough bounds of those harnesses'),
+            outside='termination beyond the explored paths (no ranking functions are proved); float scaling kernels of the rough legalizer (1e8/width); larger circuits'),
+  assumptions=STD_ASSUME + [BOOST_ASSUME, EIGEN_ASSUME, LEMON_ASSUME],
+  harnesses=[
+    dict(name='H07S', src='C07_kernels.cpp', covers=['end'], defines={'VCAP': 1202, 'H07S': None}, cfg=dict(fp='havoc', max_steps=20000000), ir_srcs=ALL_IR, native_srcs=ALL_IR, native_flags=['-llemon']),
+    dict(name='H07W', src='C07_kernels.cpp', covers=['end'], defines={'VCAP': 6, 'H07W': None}, cfg=dict(fp='havoc'), ir_srcs=ALL_IR, native_srcs=ALL_IR, native_flags=['-llemon']),
+    dict(name='H07R', src='C11_idempotent.cpp', covers=['end'], defines={'VCAP': 8, 'H11B': None, 'NC': 2}, cfg=dict(fp='havoc'), split=2, ir_srcs=ALL_IR, native_srcs=ALL_IR, native_flags=['-llemon']),
+    dict(name='H07D', src='C10_busy.cpp', covers=['placement call ended', 'end'], defines={'VCAP': 8, 'NDEBUG': None}, cfg=dict(fp='havoc'), ir_srcs=ALL_IR, native_srcs=ALL_IR, native_flags=['-llemon']),
+    dict(name='H07G', src='C03_global.cpp', covers=['placeGlobal ended', 'end'], defines={'VCAP': 24, 'MAXSTEPS': 1, 'NDEBUG': None}, cfg=dict(fp='havoc', time_budget=40), split=4, ir_srcs=ALL_IR, native_srcs=ALL_IR, native_flags=['-llemon']),
+    dict(name='H07L', src='C01_legalize.cpp', covers=['legalize ended', 'end'], defines=dict(C01_BASE, NC=1, YCHOICE=None, POLCHOICES=2, NDEBUG=None), cfg=dict(fp='havoc'), ir_srcs=ALL_IR, native_srcs=ALL_IR, native_flags=['-llemon']),
+  ])
